@@ -126,10 +126,10 @@ def run(ctx):
                 if bad:
                     ctx.violation(dict(key, what="part-not-translatable", part=bad[0]), {"text": text, "part": bad[1], "outcome": bad[2], "case": slim(r)})
                     continue
-                ao = tr.sql(text, "al")
+                ao = tr.sql(text, "T1x")
                 cid = len(traces) + 1
                 traces.append({"id": cid, "d": dname, "tree": r["tree"], "out": project.cps(o[1]), "nfields": r["nfields"],
-                               "aliased": project.cps(ao[1]) if ao[0] == "ok" else [], "alias": project.cps("al")})
+                               "aliased": project.cps(ao[1]) if ao[0] == "ok" else [], "alias": project.cps("T1x")})
                 info[cid] = (key, text, o[1], ao, r)
     # the standard dialect's floor/ceiling templates (pinned verbatim by the unit tests) are probed on their own
     from odata_query.sql import AstToSqlVisitor
@@ -144,7 +144,7 @@ def run(ctx):
         sk = ["Call", ["Id", [], fn], [["Id", [], "zz1"]]]
         tables["skels"]["sql"][json.dumps(sk)] = [sk, project.cps(tr.sql("%s(zz1)" % fn)[1])]
         tree = ["Cmp", "eq", ["Call", ["Id", [], fn], [leaf_n]], one]
-        traces.append({"id": cid, "d": "sql", "tree": tree, "out": project.cps(o[1]), "nfields": 1, "aliased": [], "alias": project.cps("al")})
+        traces.append({"id": cid, "d": "sql", "tree": tree, "out": project.cps(o[1]), "nfields": 1, "aliased": [], "alias": project.cps("T1x")})
         info[cid] = ({"dialect": "sql", "fns": [fn], "probe": "pinned-template"}, probe, o[1], ("none", ""),
                      {"tree": tree, "text": project.cps(probe), "nops": 2, "nfields": 1, "leaves": [], "skels": []})
     validate(ctx, traces, info, tables)
@@ -240,9 +240,9 @@ def replay(ctx, rep):
             tables["leaves"][dname][json.dumps(t)] = [t, project.cps(tr.sql(U(x))[1])]
         for t, x in r["skels"]:
             tables["skels"][dname][json.dumps(t)] = [t, project.cps(tr.sql(U(x))[1])]
-        ao = tr.sql(text, "al")
+        ao = tr.sql(text, "T1x")
         cid = len(traces) + 1
         traces.append({"id": cid, "d": dname, "tree": r["tree"], "out": project.cps(o[1]), "nfields": r["nfields"],
-                       "aliased": project.cps(ao[1]) if ao[0] == "ok" else [], "alias": project.cps("al")})
+                       "aliased": project.cps(ao[1]) if ao[0] == "ok" else [], "alias": project.cps("T1x")})
         info[cid] = ({"dialect": dname, "fns": sorted(fn_names(r["tree"]))}, text, o[1], ao, r)
     validate(ctx, traces, info, tables)
